@@ -813,6 +813,13 @@ def _check_one(args):
     return problems, stats, case, err
 
 
+_WORK = []
+
+
+def _check_index(i):
+    return _check_one(_WORK[i])
+
+
 def run(ctx):
     thorough = ctx.tier == 'thorough'
     ok1 = ctx.obligations_stage(PROPS, extra_targets=['C06/Examples.vo'])
@@ -917,9 +924,13 @@ def run(ctx):
     # the oracle (and the rendering of the Coq evaluation cases) runs in worker processes
     work = [(spec, res, nenv, '%d-%d' % (ctx.seed, k)) for (k, spec, res) in todo]
     if len(work) > 2000:
-        from concurrent.futures import ProcessPoolExecutor
-        with ProcessPoolExecutor(max_workers=12) as ex:
-            outs = list(ex.map(_check_one, work, chunksize=40))
+        # workers are forked: they read the work list from the inherited global (nothing big is pickled)
+        import multiprocessing
+        global _WORK
+        _WORK = work
+        with multiprocessing.get_context('fork').Pool(12) as pool:
+            outs = pool.map(_check_index, range(len(work)), chunksize=25)
+        _WORK = []
     else:
         outs = [_check_one(w) for w in work]
     for (k, spec, res), (problems, s2, case, err) in zip(todo, outs):
